@@ -330,6 +330,15 @@ def coq_eval(pid, shards, timeout=1200, jobs=16):
         running = still
         if running:
             time.sleep(0.05)
+    # a shard killed by its time limit (an overloaded machine: the evaluations are deterministic and take seconds) is evaluated
+    # once more, alone and with three times the limit, before its failure is believed
+    for k, res in enumerate(results):
+        if res is not None and res[0] == 124:
+            path = os.path.join(outdir, "cases_%d.v" % k)
+            with open(path + ".log", "w") as logf:
+                rc = subprocess.call(["timeout", str(3 * timeout), "coqc", "-Q", os.path.join(COQDIR, "theories"), "QV", path],
+                                     cwd=outdir, stdout=logf, stderr=subprocess.STDOUT, env=env)
+            results[k] = (rc, open(path + ".log").read() + ("\nTIMEOUT (twice)" if rc == 124 else ""))
     return results
 
 
